@@ -1,60 +1,175 @@
 //! C09 — rate / ETA estimator laws through the public API on the virtual clock.
-//! Updates are `pb.update(|s| s.set_pos(p))` (always recorded); queries are `pb.per_sec()`.
+//!
+//! Operations: `update(|s| s.set_pos(p))` (always records a sample), `inc` / `set_position` (record only
+//! when the position gate lets a tick through), `reset_eta`, `reset_elapsed`, `reset`, `finish`,
+//! `set_length`; queries: `per_sec`, `eta`, `duration`, `elapsed`.
+//! The oracle judges the implementation's answers by the laws of the statement alone:
+//!  * finite and non-negative strictly after creation / the last reset;
+//!  * never above the largest rate observed over any window of operation instants since the last reset;
+//!  * steady progress (exact constant rate, any cadence): the reported rate is that rate;
+//!  * while nothing happens between two queries the rate does not rise;
+//!  * after `reset_eta` the answers equal those of a fresh bar created at that instant (twin run);
+//!  * eta = remaining / rate with the three zero cases; duration = elapsed + eta.
 use crate::common::*;
 use indicatif::verif_hooks as vh;
 use indicatif::ProgressBar;
 
 pub const T0: u64 = 1_000_000_000_000;
 
+fn close(a: f64, b: f64, rel: f64) -> bool { a == b || (a - b).abs() <= rel * a.abs().max(b.abs()) + 1e-300 }
+
+/// fixed histories that run before the generated ones: the recipes of the listed findings
+fn corpus(out: &mut Out) {
+    // F20: steady 1 step/s for a minute, a burst of 1000 steps in 10 ms, then a stall queried every 0.5 s
+    vh::set_auto_advance_ns(0); vh::set_now_ns(T0);
+    let pb = ProgressBar::hidden();
+    let (mut now, mut pos) = (T0, 0u64);
+    let mut case = format!("EST {T0} none");
+    for _ in 0..60 { now += 1_000_000_000; pos += 1; vh::set_now_ns(now); case += &format!(" ; adv 1000000000 ; upd {pos}"); let p = pos; pb.update(move |s| s.set_pos(p)); }
+    now += 10_000_000; pos += 1000; vh::set_now_ns(now); case += &format!(" ; adv 10000000 ; upd {pos}"); let p = pos; pb.update(move |s| s.set_pos(p));
+    let mut obs = Vec::new(); let mut prev: Option<f64> = None; let mut verdict = "ok".to_string();
+    for _ in 0..12 {
+        case += " ; q"; let v = pb.per_sec(); obs.push(v.to_bits().to_string());
+        if let Some(p) = prev { if v > p * (1.0 + 1e-9) && verdict == "ok" { verdict = format!("FAIL rises-during-stall {p} -> {v}"); } }
+        prev = Some(v);
+        now += 500_000_000; vh::set_now_ns(now); case += " ; adv 500000000";
+    }
+    std::mem::forget(pb);
+    out.emit(&case, &format!("{} ORACLE {verdict}", obs.join(" ")));
+    // F21 (repaired): quick incs swallowed by the position gate, reset_eta, then one step per second
+    vh::set_now_ns(T0);
+    let pb = ProgressBar::hidden(); pb.set_length(1_000_000);
+    let mut case = format!("EST {T0} 1000000 ; len 1000000 ; adv 1000000000 ; inc 10");
+    let mut now = T0 + 1_000_000_000; vh::set_now_ns(now); pb.inc(10);
+    for _ in 0..200 { pb.inc(1); case += " ; inc 1"; }
+    pb.reset_eta(); case += " ; reseteta";
+    now += 1_000_000_000; vh::set_now_ns(now); pb.inc(1); case += " ; adv 1000000000 ; inc 1 ; q";
+    let v = pb.per_sec();
+    let verdict = if v <= 1.0 + 1e-9 { "ok".to_string() } else { format!("FAIL above-largest-observed-rate {v} > 1 (one step in the second after reset_eta)") };
+    std::mem::forget(pb);
+    out.emit(&case, &format!("{} ORACLE {verdict}", v.to_bits()));
+}
+
 pub fn run(seed: u64, tier: &str, out: &mut Out) {
+    corpus(out);
     let mut rng = Rng::new(seed);
-    let n = if tier == "thorough" { 200_000 } else { 2_000 };
+    let n = if tier == "thorough" { 200_000 } else { 3_000 };
     for case_no in 0..n {
         vh::set_auto_advance_ns(0);
         vh::set_now_ns(T0);
+        let len: Option<u64> = match rng.below(4) { 0 => None, 1 => Some(u64::MAX), 2 => Some(1_000_000), _ => Some(1000) };
         let pb = ProgressBar::hidden();
-        pb.set_length(u64::MAX);
-        let steady = case_no % 3 == 0;
-        let rate: u64 = *rng.pick(&[1u64, 3, 1000, 1_000_000, 1_000_000_000]);   // steps per second (steady cases)
-        let mut now = T0; let mut pos = 0u64;
-        let mut case = format!("EST {T0}");
+        if let Some(l) = len { pb.set_length(l); }
+        // kind 0: steady (exact constant rate through `update`), kind 1: `update` only, kind 2: everything
+        let kind = case_no % 3;
+        let rate: u64 = *rng.pick(&[1u64, 3, 1000, 1_000_000, 1_000_000_000]);
+        let (mut now, mut pos) = (T0, 0u64);
+        let mut case = format!("EST {T0} {}", len.map_or("none".to_string(), |l| l.to_string()));
+        if len.is_some() { case += " ; len "; case += &len.unwrap().to_string(); }
         let mut obs: Vec<String> = Vec::new();
         let mut verdict = "ok".to_string();
-        let mut max_rate: f64 = 0.0;
-        let mut last_stall: Option<f64> = None;     // previous query value while no progress happened since
-        let mut since_reset_ok = true;
+        let mut fail = |v: &mut String, s: String| { if v == "ok" { *v = s; } };
+        // operation instants (time, position) since the last reset, for the largest-observed-rate bound
+        let mut points: Vec<(u64, u64, u64)> = vec![(T0, 0, 0)];   // (instant, lowest, highest position the estimator may have sampled then)
+        fn push(points: &mut Vec<(u64, u64, u64)>, now: u64, pos: u64) { match points.last_mut() { Some(l) if l.0 == now => { l.1 = l.1.min(pos); l.2 = l.2.max(pos); } _ => points.push((now, pos, pos)) } }
         let mut last_reset = T0;
+        // a backwards seek resets the estimator at the next recorded sample; with the position gate the harness
+        // cannot know which call records it, so every operation instant while one is pending may be that reset
+        let mut rewind_pending = false;
+        let mut last_stall: Option<f64> = None;
+        let mut last_upd_ms_total: u64 = 0; let mut ms_total: u64 = 0;   // steady bookkeeping
+        let mut steady_ok = kind == 0;
+        let mut finished = false;
+        let mut just_sampled = false;   // a sample was recorded at this very instant and nothing happened since
+        // twin: a fresh bar created at the last reset_eta, fed the same `update`s shifted by the position then
+        let mut twin: Option<(ProgressBar, u64)> = None;
         let k = rng.range(2, 60);
         for _ in 0..k {
-            match rng.below(10) {
-                0..=5 => {
+            let choice = rng.below(20);
+            match choice {
+                0..=9 => {
                     let gap_ms: u64 = *rng.pick(&[1u64, 2, 10, 100, 999, 1000, 1001, 15_000, 60_000, 3_600_000, 86_400_000]);
-                    now += gap_ms * 1_000_000; vh::set_now_ns(now); case += &format!(" ; adv {}", gap_ms * 1_000_000);
-                    let delta = if steady { rate * gap_ms / 1000 } else { *rng.pick(&[0u64, 1, 10, 1000, 1_000_000, 1_000_000_000_000]) };
-                    if steady && delta == 0 { continue; }
-                    pos = pos.saturating_add(delta);
-                    case += &format!(" ; upd {pos}");
-                    let p2 = pos; pb.update(move |s| s.set_pos(p2));
-                    if delta > 0 { let r = delta as f64 / (gap_ms as f64 / 1000.0); if r > max_rate { max_rate = r; } }
-                    last_stall = None;
+                    now += gap_ms * 1_000_000; ms_total += gap_ms; vh::set_now_ns(now); case += &format!(" ; adv {}", gap_ms * 1_000_000);
+                    just_sampled = false;
+                    if finished { continue; }
+                    if kind == 0 {
+                        let el = ms_total - last_upd_ms_total;
+                        if (rate as u128 * el as u128) % 1000 != 0 { continue; }   // keep the true rate exactly constant
+                        let delta = (rate as u128 * el as u128 / 1000) as u64;
+                        if delta == 0 || pos.checked_add(delta).is_none() { continue; }
+                        pos += delta; last_upd_ms_total = ms_total;
+                        case += &format!(" ; upd {pos}"); let p2 = pos; pb.update(move |s| s.set_pos(p2));
+                        if let Some((t, base)) = &twin { let p3 = pos - base; t.update(move |s| s.set_pos(p3)); }
+                        just_sampled = true;
+                    } else {
+                        let delta = *rng.pick(&[0u64, 1, 10, 1000, 1_000_000, 1_000_000_000_000]);
+                        let via = if kind == 1 { 0 } else { rng.below(3) };
+                        match via {
+                            0 => { if rewind_pending { last_reset = now; rewind_pending = false; } pos = pos.saturating_add(delta); case += &format!(" ; upd {pos}"); let p2 = pos; pb.update(move |s| s.set_pos(p2));
+                                   if let Some((t, base)) = &twin { let p3 = pos - base; t.update(move |s| s.set_pos(p3)); } just_sampled = delta > 0; }
+                            1 => { if rewind_pending { last_reset = now; } let d = delta.min(u64::MAX - pos); pos += d; case += &format!(" ; inc {d}"); pb.inc(d); twin = None; }
+                            _ => { let p = if rng.chance(1, 4) { pos / 2 } else { pos.saturating_add(delta) }; if p < pos { rewind_pending = true; } if rewind_pending { last_reset = now; } pos = p; case += &format!(" ; setpos {p}"); pb.set_position(p); twin = None; }
+                        }
+                    }
+                    push(&mut points, now, pos); last_stall = None;
                 }
-                6 => { case += " ; reseteta"; pb.reset_eta(); max_rate = 0.0; last_stall = None; since_reset_ok = false; last_reset = now; }
-                7 if !steady => { let gap_ms: u64 = *rng.pick(&[1u64, 500, 5_000, 15_000, 120_000]); now += gap_ms * 1_000_000; vh::set_now_ns(now); case += &format!(" ; adv {}", gap_ms * 1_000_000); }
+                10 if kind == 2 => {   // a burst of quick incs at one instant: most are swallowed by the position gate
+                    let m = rng.range(5, 40);
+                    if rewind_pending { last_reset = now; }
+                    for _ in 0..m { if pos < u64::MAX { pos += 1; case += " ; inc 1"; pb.inc(1); push(&mut points, now, pos); } } last_stall = None; twin = None; just_sampled = false;
+                }
+                11 => {
+                    case += " ; reseteta"; pb.reset_eta();
+                    points = vec![(now, pos, pos)]; last_reset = now; last_stall = None; just_sampled = false;
+                    last_upd_ms_total = ms_total;
+                    vh::set_now_ns(now);
+                    twin = if kind != 2 && !finished { Some((ProgressBar::hidden(), pos)) } else { None };
+                }
+                12 if kind == 2 => {
+                    match rng.below(3) {
+                        0 => { case += " ; resetelapsed"; pb.reset_elapsed(); }
+                        1 => { case += " ; reset"; pb.reset(); if pos > 0 { rewind_pending = true; } pos = 0; finished = false; }
+                        _ => { case += " ; finish"; pb.finish(); finished = true; if let Some(l) = len { pos = l; } }
+                    }
+                    points = vec![(now, pos, pos)]; last_reset = now; last_stall = None; twin = None; steady_ok = false; just_sampled = false;
+                }
+                13 if kind == 2 => { just_sampled = false; let gap_ms: u64 = *rng.pick(&[1u64, 500, 5_000, 15_000, 120_000]); now += gap_ms * 1_000_000; ms_total += gap_ms; vh::set_now_ns(now); case += &format!(" ; adv {}", gap_ms * 1_000_000); }
+                14 | 15 => {
+                    // eta / duration / elapsed together with the rate at the same instant
+                    case += " ; q ; eta ; dur ; el";
+                    let (v, eta, dur, el) = (pb.per_sec(), pb.eta(), pb.duration(), pb.elapsed());
+                    obs.push(v.to_bits().to_string()); obs.push(eta.as_nanos().to_string()); obs.push(dur.as_nanos().to_string()); obs.push(el.as_nanos().to_string());
+                    let remaining = len.map(|l| l.saturating_sub(pos));
+                    let zero_case = finished || len.is_none() || (!finished && v == 0.0);
+                    if zero_case && !eta.is_zero() { fail(&mut verdict, format!("FAIL eta-zero-case eta={eta:?} finished={finished} len={len:?} rate={v}")); }
+                    if !zero_case && now > last_reset && v.is_finite() && v > 0.0 {
+                        let want = remaining.unwrap() as f64 / v;
+                        let got = eta.as_secs_f64();
+                        if !(close(got, want, 1e-9) || (got - want).abs() <= 2e-9 || (want >= 1.8e19 && eta.as_secs() == u64::MAX)) { fail(&mut verdict, format!("FAIL eta-law eta={got} remaining/rate={want}")); }
+                    }
+                    let want_dur = if len.is_none() || finished { std::time::Duration::ZERO } else { el.saturating_add(eta) };
+                    if dur != want_dur { fail(&mut verdict, format!("FAIL duration-law duration={dur:?} elapsed+eta={want_dur:?}")); }
+                }
                 _ => {
-                    if now == T0 { continue; }
+                    if now == last_reset || finished { continue; }
                     case += " ; q";
                     let v = pb.per_sec();
                     obs.push(v.to_bits().to_string());
-                    if verdict == "ok" && now > last_reset {
-                        if !(v.is_finite() && v >= 0.0) { verdict = format!("FAIL not finite/non-negative: {v}"); }
-                        else if steady && since_reset_ok && pos > 0 && last_stall.is_none() && ((v - rate as f64).abs() > 1e-6 * rate as f64) && false { verdict = format!("FAIL steady rate {rate} reported {v}"); }
-                        else if v > max_rate * (1.0 + 1e-9) + 1e-12 { verdict = format!("FAIL above the largest observed rate: {v} > {max_rate}"); }
-                        else if let Some(prev) = last_stall { if v > prev * (1.0 + 1e-9) + 1e-12 { verdict = format!("FAIL rises during a stall: {prev} -> {v}"); } }
+                    if !(v.is_finite() && v >= 0.0) { fail(&mut verdict, format!("FAIL not-finite-nonnegative {v} at {} ns after the last reset", now - last_reset)); }
+                    else {
+                        // largest rate over any window of operation instants since the last reset
+                        let mut max_rate = 0f64;
+                        for i in 0..points.len() { for j in i + 1..points.len() { let (t1, p1, _) = points[i]; let (t2, _, p2) = points[j]; if t2 > t1 && p2 > p1 { let r = (p2 - p1) as f64 / ((t2 - t1) as f64 / 1e9); if r > max_rate { max_rate = r; } } } }
+                        if v > max_rate * (1.0 + 1e-9) + 1e-12 { fail(&mut verdict, format!("FAIL above-largest-observed-rate {v} > {max_rate}")); }
+                        if kind == 0 && steady_ok && just_sampled && !close(v, rate as f64, 1e-6) { fail(&mut verdict, format!("FAIL steady-rate true rate {rate}/s reported {v}")); }
+                        if let Some(prev) = last_stall { if v > prev * (1.0 + 1e-9) + 1e-12 { fail(&mut verdict, format!("FAIL rises-during-stall {prev} -> {v}")); } }
+                        if let Some((t, _)) = &twin { let tv = t.per_sec(); if now > last_reset && !(close(v, tv, 1e-9) || (!tv.is_finite() && !v.is_finite())) { fail(&mut verdict, format!("FAIL reset-does-not-forget after reset_eta: {v}, fresh bar: {tv}")); } }
                     }
                     last_stall = Some(v);
                 }
             }
         }
+        if let Some((t, _)) = twin { std::mem::forget(t); }
         std::mem::forget(pb);
         out.emit(&case, &format!("{} ORACLE {verdict}", obs.join(" ")));
     }
